@@ -39,7 +39,7 @@ def parameters(p):
     return {"M": [qv(row) for row in m.local_min], "rho": qv(m.rho), "f": qv(m.f), "peak": qv(m.peak)}
 
 
-def build_record(dim, nf, rng, golden=None, npts=24, problem=None):
+def build_record(dim, nf, rng, golden=None, npts=24, problem=None, stream=False):
     from iOpt.problems.GKLS import GKLS
     p = problem if problem is not None else GKLS(dim, nf)
     del RAISED[:]
@@ -90,6 +90,7 @@ def build_record(dim, nf, rng, golden=None, npts=24, problem=None):
            "gvalues": [q(evalf(p, y)) for y in golden_points(dim, nf)]}
     rec.update(prm)
     rec["raised"] = bool(RAISED)
+    rec["rng"] = bool(stream)
     if golden is not None:
         rec["golden"] = golden["%d/%d" % (dim, nf)]
     return rec
